@@ -24,13 +24,12 @@ replays.
 """
 import collections
 import contextlib
-import multiprocessing
 import os
 import signal
 import time
 import traceback
 
-from mc import env, cover
+from mc import env, cover, forkmap
 from mc.canon import digest
 from mc.report import Violation, HarnessError
 
@@ -210,9 +209,7 @@ def explore(driver, rep, part=None, max_depth=None, max_states=None,
     caps = []
     samples = []
     levels = []
-    pool = None
-    if workers > 1:
-        pool = multiprocessing.get_context('fork').Pool(workers)
+    results = None
     try:
         while frontier:
             if max_depth is not None and depth >= max_depth:
@@ -222,10 +219,7 @@ def explore(driver, rep, part=None, max_depth=None, max_states=None,
             step = max(1, min(chunk, len(frontier) // (workers * 4) or 1))
             tasks = [frontier[i:i + step]
                      for i in range(0, len(frontier), step)]
-            if pool is not None and len(tasks) > 1:
-                results = pool.imap(_expand, tasks)
-            else:
-                results = map(_expand, tasks)
+            results = forkmap.imap(_expand, tasks, workers)
             nxt = []
             stop = None
             for res, lines in results:
@@ -271,6 +265,7 @@ def explore(driver, rep, part=None, max_depth=None, max_states=None,
                     stop = (f'stopped at depth {depth + 1}: violations found '
                             f'and 45s spent in this part')
                     break
+            results.close()         # kills the workers after an early stop
             levels.append(len(nxt))
             if nxt and len(samples) < 6:
                 samples.append(list(nxt[len(nxt) // 2][0]))
@@ -280,9 +275,8 @@ def explore(driver, rep, part=None, max_depth=None, max_states=None,
             frontier = nxt
             depth += 1
     finally:
-        if pool is not None:
-            pool.terminate()
-            pool.join()
+        if results is not None:
+            results.close()
     stats = dict(states=len(seen), transitions=transitions, depth=depth,
                  levels=levels, distinct_observations=len(obs_seen),
                  per_op=dict(per_op), pruned=dict(pruned),
@@ -356,17 +350,13 @@ def enumerate_cases(runner, cases, rep, part, rule_nontrivial=None,
     t0 = time.time()
     cases = list(cases)
     tasks = [cases[i:i + chunk] for i in range(0, len(cases), chunk)]
-    pool = None
-    if workers > 1 and len(tasks) > 1:
-        pool = multiprocessing.get_context('fork').Pool(workers)
     keys = set()
     nontrivial_keys = set()
     calls = 0
     hits = collections.Counter()
     samples = []
+    results = forkmap.imap(_run_chunk, tasks, workers)
     try:
-        results = pool.imap(_run_chunk, tasks) if pool else map(_run_chunk,
-                                                                 tasks)
         for res, lines in results:
             rep.covered |= lines
             for kind, case, data in res:
@@ -388,9 +378,7 @@ def enumerate_cases(runner, cases, rep, part, rule_nontrivial=None,
                 if info.get('nontrivial', bool(h)):
                     nontrivial_keys.add(k)
     finally:
-        if pool is not None:
-            pool.terminate()
-            pool.join()
+        results.close()
     n = len(cases)
     if n:
         samples = [cases[0], cases[n // 2], cases[-1]]
